@@ -34,6 +34,14 @@ Additional syntax (all with `_ok` twin contributions: index in range, no overflo
   * integer inference fallback: an integer variable whose type no use determines is an `i32` as in rustc.  Only non-negative
     `i32` values are representable: literals, `+`, `*` (twin: result < 2^31) and the use as a shift amount are accepted,
     every other operation on such a value is refused.  (Where the twin is false the value is unspecified.)
+
+Sensitivity experiments (`tools/mutcheck.sh twenty-first/src/math/lattice.rs '<sed>' C18`, on a mutated COPY of the file), all
+reported as VIOLATION with the broken bridge lemmas of TF/Proofs/GenBridgeLattice.lean and a concrete failing op:
+  `powers_of_psi_bitreversed[m + i]` -> `[m + i + 1]`   ntt_for2_eq; `lat rmul ..`: implementation panics (index 64), GEN-MISMATCH ok=false
+  `powers_of_psi_bitreversed[m + i]` -> `[i]`           ntt_for2_eq, ntt_stage_eq, ntt_loop_step; `lat rmul ..` differs from the schoolbook product
+  `array[j + t] = (u - v) * zeta` -> `(v - u) * zeta`   intt_for3_eq; `lat rmul ..` differs from the schoolbook product
+  `15 + 16 * j` -> `14 + 16 * j` (embed_msg)            embed_byte_table; `lat kem ..`: decapsulation of an honest ciphertext fails
+  `(1 << 14)` -> `(1 << 13)` (extract_msg)              ext_for2_step, ext_for3_step (+ _ok_step); `lat extract ..` differs from the model
 """
 import hashlib
 import os
